@@ -261,3 +261,77 @@ def tasks(tier, seed=0):
         ts.append(("roundtrip_task", dict(kind=kind, kw=kw, instance_name=kind)))
     ts.append(("roundtrip_task", dict(kind="logistic", kw=cfgs[0][1], instance_name="my_model")))
     return ts
+
+
+def load_over_existing_task(kind, kw):
+    """load_parameters on a model that already holds population values (after a fit / initialisation / earlier load): the population variables must
+    become the prior modes of the NEW parameters and every derived value must agree with them."""
+    task = f"load-over-existing[{cfg_name(kind, kw)}]"
+
+    def body():
+        m = build_model(kind, **kw)
+        rec = Recorder(PROP, task, [StatefulModel.load_parameters, State.put_population_latent_variables])
+        st.new_context("R")
+        old = put_symbolic_parameters(m.state, prefix="old_")
+        m.state.put_population_latent_variables("mode")
+        for n in m.dag:
+            if isinstance(m.dag[n], LinkedVariable) and n in ("v0", "g", "metric", "mixing_matrix"):
+                m.state[n]  # cached derived values of the old parameters
+        new = {p: st.sym("new_" + p, tuple(var.shape)) for p, var in by_type(m.dag, ModelParameter).items()}
+        for p, t in new.items():
+            if p.endswith("_std"):
+                for x in t.sym.reshape(-1):
+                    T.assume(x > 0)
+        m.load_parameters(dict(new))
+        script = f"""
+from leaspy.models.factory import model_factory
+from leaspy.variables.specs import ModelParameter, PopulationLatentVariable
+m = model_factory({kind!r}, **{kw!r}); m._initialize_state()
+g = torch.Generator().manual_seed(0)
+mk = lambda: {{p: (torch.rand(tuple(var.shape), generator=g) * 0.5 + 0.25) * (100.0 if p == 'tau_mean' else 1.0) for p, var in m.dag.sorted_variables_by_type[ModelParameter].items()}}
+m.load_parameters(mk()); m.state['v0']
+new = mk(); m.load_parameters(new)
+bad = [v for v, var in m.dag.sorted_variables_by_type[PopulationLatentVariable].items() if not torch.equal(m.state[v], m.state[var.prior.parameters_names[0]].expand_as(m.state[v]))]
+ref = model_factory({kind!r}, **{kw!r}); ref._initialize_state(); ref.load_parameters(new)
+bad += [n for n in ('v0', 'g') if n in m.dag and not torch.equal(m.state[n], ref.state[n])]
+print(bad); sys.exit(1 if bad else 0)
+"""
+        for v, var in by_type(m.dag, PopulationLatentVariable).items():
+            loc_name = var.prior.parameters_names[0]
+            got = st.to_terms(m.state[v])
+            loc = np.broadcast_to(new[loc_name].sym, got.shape)
+            for idx_ in np.ndindex(*got.shape):
+                if got[idx_].eq(loc[idx_]):
+                    rec.obligations += 1
+                    rec.discharged += 1
+                else:
+                    rec.prove(f"{v}{list(idx_)}==mode(new)", got[idx_] == loc[idx_], replay=lambda m_: script, key="C12:population-not-prior-mode-after-load", what="after load_parameters on an already populated model a population variable is not the prior mode of the new parameters")
+        ref = fresh_state(m)
+        with ref.auto_fork(None):
+            for p, t in new.items():
+                ref[p] = t
+            ref.put_population_latent_variables("mode")
+        for n in ("v0", "g", "metric", "mixing_matrix"):
+            if n in m.dag:
+                a, b = st.to_terms(m.state[n]), st.to_terms(ref[n])
+                for idx_ in np.ndindex(*a.shape):
+                    if a[idx_].eq(b[idx_]):
+                        rec.obligations += 1
+                        rec.discharged += 1
+                    else:
+                        rec.prove(f"derived[{n}]{list(idx_)}", a[idx_] == b[idx_], replay=lambda m_: script, key="C12:derived-stale-after-load", timeout_ms=60000, what=f"{n} disagrees with the loaded parameters")
+        rec.sample({"model": cfg_name(kind, kw), "scenario": "load_parameters over a populated state with cached derived values"})
+        rec.end_path()
+        return rec.result()
+
+    return guarded(PROP, task, body)
+
+
+_tasks_c12 = tasks
+
+
+def tasks(tier, seed=0):
+    extra = [("load_over_existing_task", dict(kind="logistic", kw=dict(features=["a", "b"], source_dimension=1)))]
+    if tier == "thorough":
+        extra.append(("load_over_existing_task", dict(kind="linear", kw=dict(features=["a", "b"], source_dimension=0))))
+    return _tasks_c12(tier, seed) + extra
